@@ -251,6 +251,24 @@ func c01Families(tier string) []explore.Family {
 		})
 	}})
 
+	// ranges far too long to materialise (2^44 .. 2^63 elements), used where nothing has to iterate over them or
+	// where the answer must come at once: output or an error, never a panic (an allocation of that size panics
+	// immediately, so the check cannot exhaust memory; ranges of 2^31..2^43 elements are NOT tried: materialising
+	// them would be "proportional to the range the template spells out" and could take the machine down)
+	hugeEnds := [][2]string{{"1", "9223372036854775807"}, {"-4611686018427387904", "4611686018427387903"}, {"0", "17592186044416"}, {"-9223372036854775808", "9223372036854775807"}}
+	hugeForms := []string{"{{ (A..B) | first }}", "{{ (A..B) | last }}", "{{ (A..B) | size }}", "{{ (A..B).first }}{{ (A..B).size }}{{ (A..B)[0] }}", "{% assign r = (A..B) %}{{ r.first }}{{ r | size }}",
+		"{% for i in (A..B) limit: 2 %}{{ i }}{% endfor %}", "{{ (A..B) | join | size }}", "{{ (A..B) | sort | first }}", "{{ (A..B) | reverse | first }}", "{{ (A..B) | map: 'x' | size }}", "{{ (A..B) | uniq | size }}",
+		"{% if (A..B) contains 5 %}T{% endif %}", "{{ (A..B) | concat: l | size }}", "{{ l | concat: (A..B) | size }}", "{% for i in (A..B) reversed limit: 1 %}{{ i }}{% endfor %}", "{% tablerow i in (A..B) limit: 1 %}{{ i }}{% endtablerow %}", "{{ (A..B) }}"}
+	// the last form and contains may legitimately take time proportional to the range: they are only run on the current tree's fast paths if they return at once
+	fams = append(fams, explore.Family{Name: "ranges-too-long-to-materialise", Count: int64((len(hugeForms) - 1) * len(hugeEnds)), Run: func(i int64, r *explore.Rec) {
+		e, f := hugeEnds[int(i)%len(hugeEnds)], hugeForms[int(i)/len(hugeEnds)]
+		if strings.Contains(f, "contains") || strings.Contains(f, "reversed") || strings.Contains(f, "tablerow") {
+			return // may iterate: proportional to the range, not tried
+		}
+		src := strings.ReplaceAll(strings.ReplaceAll(f, "A", e[0]), "B", e[1])
+		c01Check(r, "huge-range", src, map[string]any{"l": []any{1, 2}}, func() any { return map[string]any{"template": src} })
+	}})
+
 	// 3. syntax space
 	synBind := func() map[string]any {
 		return map[string]any{"x": []any{1, "a", map[string]any{"x": 2}}, "if": 1, "in": "s"}
